@@ -16,6 +16,7 @@ import (
 	"net/http"
 	"net/http/httptest"
 	"sort"
+	"strconv"
 	"strings"
 	"sync"
 	"testing"
@@ -89,6 +90,8 @@ type c16Req struct {
 	body c16Body // client: the plaintext; pre: the plaintext; garbage: the wire bytes
 	lib  string  // pre: library used
 	lvl  int     // pre: level / variant
+	rd   string  // how the handler reads: "" / "all" = io.ReadAll; "chunk:<n>" = n bytes at a time to the end; "partial:<k>" = at most k bytes; "none"
+	cl   int     // how often the handler calls r.Body.Close() afterwards
 }
 
 type c16Case struct {
@@ -303,6 +306,22 @@ func c16Corpus() []c16Case {
 		{mode: "client", hdr: "identity", body: c16Body{kind: 't', n: 64}},
 		{mode: "pre", hdr: "x-xor", lib: "xor", body: c16Body{kind: 't', n: 200}},
 	}})
+	// streaming: chunked / partial / no read + Close by the handler, each followed by a full request on the same connection
+	for _, ct := range []string{"gzip", "zstd", "snappy", "lz4", "deflate", "none"} {
+		big := c16Body{kind: 'r', n: 300_000, seed: 11}
+		cs = append(cs, c16Case{algosNil: true, max: 400_000, ct: ct, reqs: []c16Req{
+			{mode: "client", body: big, rd: "chunk:7", cl: 1},
+			{mode: "client", body: c16Body{kind: 't', n: 1000}},
+			{mode: "client", body: big, rd: "partial:100", cl: 2},
+			{mode: "client", body: c16Body{kind: 't', n: 1001}},
+			{mode: "client", body: big, rd: "none", cl: 1},
+			{mode: "client", body: c16Body{kind: 't', n: 1002}},
+			{mode: "client", body: c16Body{kind: 'z', n: 900_000}, rd: "partial:400001"},
+			{mode: "client", body: c16Body{kind: 't', n: 1003}},
+			{mode: "client", body: c16Body{kind: 'z', n: 900_000}, rd: "chunk:4096", cl: 1},
+			{mode: "client", body: c16Body{kind: 't', n: 1004}, rd: "partial:2000"},
+		}})
+	}
 	// WithErrorHandler: rejections are answered by the caller's handler (handed 400), nothing else changes
 	cs = append(cs, c16Case{algos: []string{"", "gzip"}, max: 1000, ct: "zstd", eh: 22, custom: []string{"x-xor"}, reqs: []c16Req{
 		{mode: "client", body: c16Body{kind: 't', n: 300}},
@@ -314,6 +333,10 @@ func c16Corpus() []c16Case {
 	// concurrency: handlers that close the body themselves, then overlapping requests (every algorithm)
 	for i, ct := range []string{"gzip", "zstd", "zlib", "snappy", "lz4", "deflate", "none"} {
 		cs = append(cs, c16Case{conc: &c16Conc{k: 4 + 2*i, closes: 1 + i%2, rounds: 2, ct: ct}})
+	}
+	// the same with the overlap forced inside the CLIENT's compress step (pooled writers), after a request whose body fails
+	for i, ct := range []string{"gzip", "zstd", "zlib", "snappy", "lz4", "deflate"} {
+		cs = append(cs, c16Case{conc: &c16Conc{k: 4 + i, closes: 0, rounds: 2, ct: ct, clientBarrier: true}})
 	}
 	return cs
 }
@@ -449,6 +472,28 @@ func c16Gen(c int, rnd interface {
 				}
 			}
 		}
+		if r.mode != "garbage" && rnd.IntN(3) == 0 {
+			// streaming behaviour of the handler: small chunks / a prefix only / nothing, and Close by the handler
+			n := len(r.body.bytes())
+			switch rnd.IntN(4) {
+			case 0:
+				r.rd = fmt.Sprintf("chunk:%d", []int{1, 2, 7, 64, 511, 4096}[rnd.IntN(6)])
+			case 1:
+				r.rd = fmt.Sprintf("partial:%d", rnd.IntN(n+2))
+			case 2:
+				r.rd = fmt.Sprintf("partial:%d", int(cs.max)+rnd.IntN(3)-1)
+				if cs.max <= 0 || cs.max > 1<<20 {
+					r.rd = fmt.Sprintf("partial:%d", rnd.IntN(n+2))
+				}
+			default:
+				r.rd = "none"
+			}
+			r.cl = rnd.IntN(3)
+			cs.reqs = append(cs.reqs, r)
+			// … and the next request on the same keep-alive connection must be untouched by what was left unread
+			cs.reqs = append(cs.reqs, c16Req{mode: "client", body: mkBody(maxN)})
+			continue
+		}
 		cs.reqs = append(cs.reqs, r)
 	}
 	return cs
@@ -466,6 +511,38 @@ type c16Seen struct {
 	wireLen  int64
 	enc      string
 	encCount int
+	remote   string
+}
+
+// c16HandlerRead: the handler's way of consuming the body. A clean end of stream is not an error.
+func c16HandlerRead(body io.Reader, mode string) ([]byte, error) {
+	switch {
+	case strings.HasPrefix(mode, "chunk:"):
+		n, _ := strconv.Atoi(strings.TrimPrefix(mode, "chunk:"))
+		var out []byte
+		buf := make([]byte, n)
+		for {
+			k, err := body.Read(buf)
+			out = append(out, buf[:k]...)
+			if err == io.EOF {
+				return out, nil
+			}
+			if err != nil {
+				return out, err
+			}
+		}
+	case strings.HasPrefix(mode, "partial:"):
+		n, _ := strconv.Atoi(strings.TrimPrefix(mode, "partial:"))
+		buf := make([]byte, n)
+		k, err := io.ReadFull(body, buf)
+		if err == io.EOF || err == io.ErrUnexpectedEOF {
+			err = nil // the stream ended cleanly before k bytes
+		}
+		return buf[:k], err
+	case mode == "none":
+		return nil, nil
+	}
+	return io.ReadAll(body)
 }
 
 type c16StatusWriter struct {
@@ -546,9 +623,13 @@ func c16NilDecoder(io.ReadCloser) (io.ReadCloser, error) { return nil, nil }
 func c16Stage(t *testing.T, out *vOut, cs c16Case) bool {
 	seen := &c16Seen{}
 	base := http.HandlerFunc(func(w http.ResponseWriter, r *http.Request) {
-		data, err := io.ReadAll(r.Body)
+		data, err := c16HandlerRead(r.Body, r.Header.Get("X-C16-Read"))
+		for i := 0; i < len(r.Header.Get("X-C16-Close")); i++ {
+			_ = r.Body.Close()
+		}
 		seen.mu.Lock()
 		seen.ran, seen.data, seen.readErr = true, data, err
+		seen.remote = r.RemoteAddr
 		seen.mu.Unlock()
 		w.WriteHeader(http.StatusOK)
 	})
@@ -593,6 +674,7 @@ func c16Stage(t *testing.T, out *vOut, cs c16Case) bool {
 	defer ts.Close()
 
 	hcs := &ClientConfig{Endpoint: ts.URL, Compression: configcompression.Type(cs.ct), CompressionParams: newCompressionParams(configcompression.Level(cs.lvl))}
+	hcs.MaxConnsPerHost = 1 // sequential requests of a stage share ONE keep-alive connection whenever the server keeps it open
 	out.Linef("op cfg algos=%s max=%d ct=%s lvl=%d custom=%s eh=%d", c16AlgosToken(cs), cs.max, vHex(cs.ct), cs.lvl, c16CustomToken(cs), cs.eh)
 	if err := hcs.Validate(); err != nil {
 		t.Fatalf("generator produced invalid client params: %v", err)
@@ -609,6 +691,7 @@ func c16Stage(t *testing.T, out *vOut, cs c16Case) bool {
 	if limit <= 0 {
 		limit = defaultMaxRequestBodySize
 	}
+	lastRemote := ""
 	for _, rq := range cs.reqs {
 		*seen = c16Seen{}
 		plain := rq.body.bytes()
@@ -626,6 +709,12 @@ func c16Stage(t *testing.T, out *vOut, cs c16Case) bool {
 		}
 		if rq.hdr != "" {
 			req.Header.Set("Content-Encoding", rq.hdr)
+		}
+		if rq.rd != "" {
+			req.Header.Set("X-C16-Read", rq.rd)
+		}
+		if rq.cl > 0 {
+			req.Header.Set("X-C16-Close", strings.Repeat("x", rq.cl))
 		}
 		resp, derr := client.Do(req)
 		if derr == nil {
@@ -650,7 +739,23 @@ func c16Stage(t *testing.T, out *vOut, cs c16Case) bool {
 		if rq.mode == "pre" {
 			pre = fmt.Sprintf(" lib=%s plvl=%d", rq.lib, rq.lvl)
 		}
-		out.Linef("op req mode=%s hdr=%s body=%s wire=%d%s%s", rq.mode, vHex(rq.hdr), rq.body.String(), s.wireLen, pre, extra)
+		rd := rq.rd
+		if rd == "" {
+			rd = "all"
+		}
+		out.Linef("op req mode=%s hdr=%s body=%s wire=%d rd=%s%s%s", rq.mode, vHex(rq.hdr), rq.body.String(), s.wireLen, rd, pre, extra)
+		if lastRemote != "" && s.remote == lastRemote {
+			out.Linef("stat same_connection_as_previous_request 1")
+		}
+		if s.remote != "" {
+			lastRemote = s.remote
+		}
+		if rd != "all" {
+			out.Linef("stat read_%s 1", strings.SplitN(rd, ":", 2)[0])
+		}
+		if rq.cl > 0 {
+			out.Linef("stat handler_closes_body 1")
+		}
 		out.Linef("obs sent enc=%s n=%d wire=%d", vHex(s.enc), s.encCount, s.wireLen)
 		hashed := rq.mode != "garbage" || s.enc == ""
 		switch {
@@ -856,6 +961,38 @@ type c16Conc struct {
 	rounds int
 	ct     string
 	lvl    int
+	// client side: body readers of a round block at a barrier inside the client's compress step, and each round is preceded
+	// by a request whose body source fails half-way
+	clientBarrier bool
+}
+
+type c16BarrierReader struct {
+	r    io.Reader
+	wait func()
+	done bool
+}
+
+func (b *c16BarrierReader) Read(p []byte) (int, error) {
+	if !b.done {
+		b.done = true
+		b.wait()
+	}
+	return b.r.Read(p)
+}
+
+// c16FailingReader delivers half of its content, then an error
+type c16FailingReader struct {
+	r *bytes.Reader
+}
+
+func (f *c16FailingReader) Read(p []byte) (int, error) {
+	if f.r.Len() <= int(f.r.Size())/2 {
+		return 0, fmt.Errorf("c16: body source failed")
+	}
+	if len(p) > 512 {
+		p = p[:512]
+	}
+	return f.r.Read(p)
 }
 
 type c16ConcGot struct {
@@ -925,8 +1062,38 @@ func c16ConcRun(t *testing.T, out *vOut, c int, cc c16Conc) {
 	defer client.CloseIdleConnections()
 	sent := map[string][]byte{}
 	statuses := map[string]int{}
+	// client-side overlap: the body readers of a round wait, at their first Read, until every request of the round is inside
+	// the client's compress step (each then holds a pooled writer at the same time)
+	var cArrived int
+	var cGate chan struct{}
+	var panics []string
 	do := func(id string, body []byte, barrier bool) {
-		req, _ := http.NewRequest(http.MethodPost, ts.URL, bytes.NewReader(body))
+		var rd io.Reader = bytes.NewReader(body)
+		if barrier && cc.clientBarrier {
+			rd = &c16BarrierReader{r: bytes.NewReader(body), wait: func() {
+				mu.Lock()
+				cArrived++
+				if cArrived == cc.k {
+					close(cGate)
+				}
+				g := cGate
+				mu.Unlock()
+				select {
+				case <-g:
+				case <-time.After(3 * time.Second):
+				}
+			}}
+		}
+		defer func() {
+			// a panic inside the client (e.g. a pooled writer used by two requests at once) must not take the harness down
+			if p := recover(); p != nil {
+				mu.Lock()
+				statuses[id] = -2
+				panics = append(panics, fmt.Sprintf("id=%s %v", id, p))
+				mu.Unlock()
+			}
+		}()
+		req, _ := http.NewRequest(http.MethodPost, ts.URL, rd)
 		req.Header.Set("X-C16-Id", id)
 		if barrier {
 			req.Header.Set("X-C16-Barrier", "1")
@@ -951,9 +1118,26 @@ func c16ConcRun(t *testing.T, out *vOut, c int, cc c16Conc) {
 			do(id, sent[id], false)
 			total++
 		}
+		if cc.clientBarrier {
+			// a request whose body fails half-way: the client gives up, its pooled writer goes back dirty
+			req, _ := http.NewRequest(http.MethodPost, ts.URL, &c16FailingReader{r: bytes.NewReader(c16ConcBody(c, round, 200, rnd))})
+			req.Header.Set("X-C16-Id", fmt.Sprintf("r%d-failing", round))
+			func() {
+				defer func() {
+					if p := recover(); p != nil {
+						panics = append(panics, fmt.Sprintf("id=failing %v", p))
+					}
+				}()
+				if resp, err := client.Do(req); err == nil {
+					_, _ = io.Copy(io.Discard, resp.Body)
+					resp.Body.Close()
+				}
+			}()
+		}
 		// phase 2: k requests overlapping in time
 		mu.Lock()
 		arrived, gate = 0, make(chan struct{})
+		cArrived, cGate = 0, make(chan struct{})
 		mu.Unlock()
 		var wg sync.WaitGroup
 		for i := 0; i < cc.k; i++ {
@@ -969,6 +1153,9 @@ func c16ConcRun(t *testing.T, out *vOut, c int, cc c16Conc) {
 		wg.Wait()
 	}
 	out.Linef("op conc k=%d closes=%d rounds=%d ct=%s lvl=%d total=%d", cc.k, cc.closes, cc.rounds, vHex(cc.ct), cc.lvl, total)
+	for _, p := range panics {
+		out.Linef("viol sig=C16/concurrency/client-panicked-while-sending ct=%s k=%d clientBarrier=%v %s", cc.ct, cc.k, cc.clientBarrier, strings.ReplaceAll(p, "\n", " "))
+	}
 	exact := 0
 	var ids []string
 	for id := range sent {
@@ -999,13 +1186,16 @@ func c16ConcRun(t *testing.T, out *vOut, c int, cc c16Conc) {
 	}
 	out.Linef("obs conc total=%d exact=%d", total, exact)
 	out.Linef("stat conc_cases 1")
+	if cc.clientBarrier {
+		out.Linef("stat conc_client_barrier 1")
+	}
 	out.Linef("stat conc_requests %d", total)
 	out.Linef("stat conc_ct_%s 1", strings.ReplaceAll(cc.ct, "-", "_"))
 }
 
 func c16ConcGen(rnd interface{ IntN(int) int }) c16Case {
 	ct := []string{"gzip", "gzip", "zstd", "zlib", "deflate", "snappy", "lz4", "none"}[rnd.IntN(8)]
-	return c16Case{conc: &c16Conc{k: 4 + rnd.IntN(13), closes: rnd.IntN(3), rounds: 1 + rnd.IntN(3), ct: ct, lvl: c16ClientLevel(rnd, ct)}}
+	return c16Case{conc: &c16Conc{k: 4 + rnd.IntN(13), closes: rnd.IntN(3), rounds: 1 + rnd.IntN(3), ct: ct, lvl: c16ClientLevel(rnd, ct), clientBarrier: rnd.IntN(2) == 0}}
 }
 
 // TestVerifC16Conc: concurrency cases only (run under -race in the thorough tier)
